@@ -4,6 +4,7 @@ go 1.23
 
 require (
 	github.com/anacrolix/dht/v2 v2.19.2-0.20221121215055-066ad8494444
+	github.com/anacrolix/generics v0.0.0-20230816105729-c755655aee45
 	github.com/anacrolix/log v0.15.2
 	github.com/anacrolix/torrent v1.48.1-0.20230103142631-c20f73d53e9f
 	golang.org/x/time v0.0.0-20220609170525-579cf78fd858
@@ -12,7 +13,6 @@ require (
 
 require (
 	github.com/anacrolix/chansync v0.3.0 // indirect
-	github.com/anacrolix/generics v0.0.0-20230816105729-c755655aee45 // indirect
 	github.com/anacrolix/missinggo v1.3.0 // indirect
 	github.com/anacrolix/missinggo/perf v1.0.0 // indirect
 	github.com/anacrolix/missinggo/v2 v2.7.1 // indirect
